@@ -1,5 +1,5 @@
 /- Judge for the `flush` dialect (C02): the executable statement of
-   `C02.flush_false_replay_eq_partial` / `C02.flush_true_converges` evaluated on what the
+   `C02.flush_false_replay_eq` / `C02.flush_true_converges` evaluated on what the
    *implementation* answered.  Input words: `<flush op args> => <impl output words>`. -/
 import GluonModel.Driver.DJudgeFlush
 import GluonModel.Spec.MailboxView
@@ -8,8 +8,8 @@ import GluonModel.Spec.MailboxView
 namespace Gluon.Driver
 open Gluon Codec
 
-/-- C02 on one observed flush: inside the named hypotheses (snapshot invariant, `UidsOk`, and for
-    `permitExpunge = false` also `FetchSafe`, `NoOwnHeld`) the flush must not fail, and handling the
+/-- C02 on one observed flush: inside the hypotheses (snapshot invariant, `UidsOk`) the flush must
+    not fail, and handling the
     queue the IMPLEMENTATION retained, afterwards, on the snapshot the IMPLEMENTATION left (second
     step by the model, permit = true), must fail nowhere and reach the snapshot that the model's
     `replay` of the whole queue reaches.  Outside the hypotheses the case is only classified. -/
@@ -19,8 +19,6 @@ def judgeC02 (args : List String) : String :=
   | some o =>
     if !o.snap.invB then "ok outside-snapshot-invariant"
     else if !(decide (UidsOk o.sid o.snap o.queue)) then "ok outside-uids"
-    else if !o.permit && !(decide (FetchSafe o.queue)) then "ok outside-fetch-after-held-readd"
-    else if !o.permit && !(decide (NoOwnHeld o.sid o.queue)) then "ok outside-own-readd-held"
     else
       let full := handleAll false o.sid o.snap o.queue
       if full.2.2.2.isSome then "violation queue-order-replay-fails-inside-hypotheses"
